@@ -1,5 +1,6 @@
 import S2T.Props.C12_Loops
 import S2T.Props.C12_Limits
+import S2T.Props.C12_Amplify
 /-!
 # C12 — extraction cost is bounded by the input; explicit limits hold
 
@@ -16,7 +17,13 @@ Parts:
   counterexamples for the PNG carver and the PPT slide-list walk, the 7z declared-file-count bound.
 * `Props/C12_Witness.lean` (namespace `S2T.C12.Witness`): the slow kernel evaluations of the witnesses.
 * `Props/C12_Limits.lean`  (namespace `S2T.C12.Limits`): exact limit theorems over the translated operators
-  and constants, archive members read / decoded / written, ODS expansion, XML parse sites.
+  and constants, archive members read / decoded / written (TAR: link members — what the loop tests is the size in
+  the member's own header, what it reads is what `extractfile` delivers; bound under the member-type guard read from
+  the source, counterexamples without it), ODS expansion incl. repeat independence of every kind of empty run
+  (empty cells, empty rows, covered cells), XML parse sites.
+* `Props/C12_Amplify.lean` (namespace `S2T.C12.Amplify`): two mechanisms whose output follows a NUMBER written in the
+  input — ODF `text:s text:c="N"` and the XLSX rectangle spanned by the used cells — with unboundedness theorems
+  (for every multiple K an input exceeding it), partial bounds and kernel-evaluated bounded witnesses.
 
 WHAT NO THEOREM HERE SPEAKS ABOUT (run-time quantities, partial by nature): peak RSS and wall time
 themselves, the behaviour of `lzma` / `zlib` / `olefile.get_metadata()` / `pypdf` / `defusedxml` on
@@ -44,5 +51,15 @@ theorem explicit_limits :
     have := S2T.C12.Limits.member_skipped_iff k configMaxMemorySize declared
     simp only [configMaxMemorySize] at this ⊢
     simpa using this
+
+/-- TAR: on the guard table, comparison operators and event order of the current source, no byte string read from a
+    member's handle exceeds the per-member limit in force by default — for every member list, links included -/
+theorem tar_members_within_default_limit (ms : List TarMember) (h : TarFaithful ms) :
+    ∀ o, Ops.ofSites limitSites = some o →
+      ∀ n ∈ tarLoopDelivered o (acceptOfTable tarGuardAccepts) (eventBefore tarLoopEvents "size-test" "read") configMaxMemorySize ms,
+        n ≤ 10 * 2 ^ 20 := by
+  intro o ho n hn
+  have := S2T.C12.Limits.tar_gen_delivered_within_limit configMaxMemorySize ms h o ho n hn
+  simpa [configMaxMemorySize] using this
 
 end S2T.C12
